@@ -15,6 +15,7 @@ import (
 	"pgregory.net/rapid"
 
 	"verif/internal/hx"
+	"verif/internal/impcheck"
 	"verif/internal/litx"
 	"verif/internal/recipe"
 )
@@ -142,6 +143,9 @@ func check(c Case) error {
 
 type listCase struct {
 	Vals []*recipe.Value `json:"vals"`
+	// Pkgs: last path elements of packages the same File refers to (names of predeclared types,
+	// which must not end up as import names shadowing the types the literals are converted to)
+	Pkgs []string `json:"pkgs,omitempty"`
 }
 
 // checkList renders all values as elements of one composite literal in one File, cuts the
@@ -155,6 +159,18 @@ func checkList(c listCase) error {
 		recipe.S().C("Var").C("Id", "_").C("Op", "=").C("Index").C("Interface").C("Values", items),
 		recipe.S().C("Var").C("Id", "_").C("Op", "=").C("Index").C("Interface").C("Values", items), // and again, same File
 	}}
+	markers := map[string]string{}
+	for i, name := range c.Pkgs {
+		path := "example.com/wire/" + name
+		m := fmt.Sprintf("S%d", i)
+		markers[m] = path
+		ref := recipe.S().C("Var").C("Id", "_").C("Op", "=").Add(recipe.Qual(path, m))
+		if i%2 == 0 {
+			fr.Body = append([]*recipe.Node{ref}, fr.Body...) // referenced before the literals ...
+		} else {
+			fr.Body = append(fr.Body, ref) // ... or after them
+		}
+	}
 	var src string
 	if err := hx.Safe(func() error {
 		f := (&recipe.Builder{}).File(fr)
@@ -162,6 +178,16 @@ func checkList(c listCase) error {
 		return nil
 	}); err != nil {
 		return fmt.Errorf("rendering %d literals in one File: %v", len(c.Vals), err)
+	}
+	if len(c.Pkgs) > 0 {
+		// the whole file must type-check: a conversion like int32(-7) means the predeclared type
+		rep, err := impcheck.Analyze([]byte(src), &impcheck.World{Real: func(string) string { return "zzreal" }, Markers: markers, HasLocal: true})
+		if err != nil {
+			return err
+		}
+		if len(rep.TypeErrors) > 0 {
+			return fmt.Errorf("a File with typed literals and imports of packages named like types does not type-check: %s\n%s", strings.Join(rep.TypeErrors, "; "), src)
+		}
 	}
 	fset := token.NewFileSet()
 	af, err := parser.ParseFile(fset, "", src, 0)
@@ -455,6 +481,31 @@ func TestC11(t *testing.T) {
 				c.Vals = append(c.Vals, recipe.V(int8(x)), recipe.V(uint16(x)), recipe.V(int(x)))
 			}
 		}
+		if rapid.IntRange(0, 2).Draw(rt, "typepkgs") == 0 {
+			for i := rapid.IntRange(1, 3).Draw(rt, "npkgs"); i > 0; i-- {
+				c.Pkgs = append(c.Pkgs, rapid.SampledFrom([]string{"int8", "int16", "int32", "int64", "uint", "uint8", "uint16", "uint32", "uint64", "uintptr", "float32", "float64", "complex64", "complex128", "bool", "string", "byte", "rune", "int"}).Draw(rt, "typepkg"))
+			}
+			r.Class("literal_lists_with_type_named_imports")
+		}
+		// only finite values are in the property's domain (float32 of a large float64 is +Inf)
+		var finite []*recipe.Value
+		for _, v := range c.Vals {
+			ok := true
+			switch x := v.Go().(type) {
+			case float32:
+				ok = !math.IsInf(float64(x), 0) && !math.IsNaN(float64(x))
+			case float64:
+				ok = !math.IsInf(x, 0) && !math.IsNaN(x)
+			case complex64:
+				ok = !math.IsInf(float64(real(x)), 0) && !math.IsInf(float64(imag(x)), 0) && !math.IsNaN(float64(real(x))) && !math.IsNaN(float64(imag(x)))
+			case complex128:
+				ok = !math.IsInf(real(x), 0) && !math.IsInf(imag(x), 0) && !math.IsNaN(real(x)) && !math.IsNaN(imag(x))
+			}
+			if ok {
+				finite = append(finite, v)
+			}
+		}
+		c.Vals = finite
 		r.NonTrivial(recipe.JSON(c))
 		r.Class("literal_lists")
 		return c
